@@ -382,8 +382,13 @@ func sideInsertSource(c *Ctx) (bool, string) {
 		}
 		return true
 	})
+	// a production that was re-arranged around a type the rules have never seen is not read by shape
+	soft := ""
+	if why := c.W.opaque(f); why != "" {
+		soft = "UNDECIDED: Parser.Insert " + why + " — "
+	}
 	if store == nil {
-		return false, "Parser.Insert does not store a TableValueConstructor"
+		return false, soft + "Parser.Insert does not store a TableValueConstructor"
 	}
 	sl, _ := g.Locate(store)
 	for _, r := range g.Returns() {
@@ -392,7 +397,7 @@ func sideInsertSource(c *Ctx) (bool, string) {
 		}
 		rl, _ := g.Locate(r)
 		if !g.Dominates(sl, rl) {
-			return false, "a success return of Parser.Insert is not preceded by the store of the value constructor"
+			return false, soft + "a success return of Parser.Insert is not preceded by the store of the value constructor"
 		}
 	}
 	if cf := c.W.F("csvimport.doBatchInsert"); cf != nil {
@@ -552,20 +557,40 @@ func sideRowValueTypes(c *Ctx) (bool, string) {
 	}
 	okT := true
 	why := ""
-	inspectBody(f.Decl.Body, func(x ast.Node) bool {
-		if as, ok := x.(*ast.AssignStmt); ok && len(as.Lhs) == 1 && len(as.Rhs) == 1 && isInterface(f.TypeOf(as.Lhs[0])) && as.Tok == token.ASSIGN {
-			if _, isId := as.Lhs[0].(*ast.Ident); !isId {
-				return true
+	// the values Decode stores into the row's map, by type-set inference over whatever route they take
+	ts := c.W.TypeSets()
+	stores := 0
+	ast.Inspect(f.Decl.Body, func(x ast.Node) bool {
+		as, ok := x.(*ast.AssignStmt)
+		if !ok || len(as.Lhs) != len(as.Rhs) {
+			return true
+		}
+		for i, l := range as.Lhs {
+			ix, ok := ast.Unparen(l).(*ast.IndexExpr)
+			if !ok || !strings.HasSuffix(exprKey(ix.X), "Vals") && !strings.HasSuffix(exprKey(ix.X), "vals") {
+				continue
 			}
-			switch typeName(f.TypeOf(as.Rhs[0])) {
-			case "int64", "string", "bool":
-			default:
+			stores++
+			set := ts.Of(f, as.Rhs[i], 0)
+			if set.Top {
 				okT = false
-				why = "Tuple.Decode produces a value of type " + typeName(f.TypeOf(as.Rhs[0]))
+				why = "UNDECIDED: the type of the value Tuple.Decode stores (" + exprKey(as.Rhs[i]) + ") could not be inferred"
+				continue
+			}
+			for k := range set.Types {
+				switch k {
+				case "int64", "string", "bool", "nil":
+				default:
+					okT = false
+					why = "Tuple.Decode produces a value of type " + k
+				}
 			}
 		}
 		return true
 	})
+	if stores == 0 {
+		return false, "UNDECIDED: no store into the row's value map found in Tuple.Decode"
+	}
 	sf := c.W.F("engine.sortColumns")
 	hasNil := false
 	if sf != nil {
@@ -800,7 +825,10 @@ func c18NoService(c *Ctx, rule string) {
 		n++
 		key := f.Name + "|uses-service|" + exprKey(call.Fun)
 		loc, _ := g.Locate(call)
-		ok = dominatedByReturnGuard(f, g, loc, func(cond ast.Expr) bool { return exprKey(cond) == recvName(f)+`.CurDB==""` })
+		ok = dominatedByReturnGuard(f, g, loc, func(cond ast.Expr) bool {
+			k := exprKey(cond)
+			return k == recvName(f)+`.CurDB==""` || k == "len("+recvName(f)+".CurDB)==0"
+		})
 		c.Check(ok, rule, key, call.Pos(), "dominated by the no-database return", "the statement is evaluated without the `please select a database` guard: with no USE (or after a failed one) the nil service is dereferenced")
 		return true
 	})
